@@ -882,7 +882,7 @@ def runCompalign (argv : List String) (files : String → Option (List Char)) : 
 /-- esl-alimerge [--outformat fmt] [--informat stockholm|pfam] (--dna|--rna|--amino) <file1> <file2>  |  --list <listfile>
     (in-memory mode; alignments with names, rows and #=GC RF only) -/
 def runAlimerge (argv : List String) (files : String → Option (List Char)) : Option String := do
-  let p ← parseArgs ["--dna", "--rna", "--amino", "--list"] ["--outformat", "--informat"] argv {}
+  let p ← parseArgs ["--dna", "--rna", "--amino", "--list", "--rfonly"] ["--outformat", "--informat"] argv {}
   let _ ← fabcOf p
   let outfmt := (p.val? "--outformat").getD "stockholm"
   if !msaFormats.contains outfmt then none
@@ -898,7 +898,7 @@ def runAlimerge (argv : List String) (files : String → Option (List Char)) : O
        | _ => none)
   if fns.isEmpty then none
   let srcs ← fns.mapM fun f => (files f).map c2b
-  (Ali.alimerge outfmt srcs).map b2s
+  (Ali.alimerge outfmt srcs (p.has "--rfonly")).map b2s
 
 def runSfetch (argv : List String) (files : String → Option (List Char)) : Option String :=
   (runSfetchFull argv files).map (·.1)
